@@ -114,6 +114,16 @@ def run_tlc(module: str, cfg: str, *, spec_dir: str, workers: int | str = "auto"
         try:
             p = subprocess.run(cmd, cwd=spec_dir, env=e, capture_output=True, text=True,
                                timeout=timeout)
+            # a JVM that could not start or was killed (memory pressure from many concurrent runs) prints neither a
+            # verdict nor statistics: run it again (at most twice) before anything reads its output
+            for _retry in range(2):
+                o = p.stdout + p.stderr
+                if simulate is not None or "states generated" in o or "Error:" in o or "Semantic error" in o \
+                        or "Parse Error" in o or "Could not parse" in o:
+                    break
+                time.sleep(5)
+                shutil.rmtree(os.path.join(tmp, "meta"), ignore_errors=True)
+                p = subprocess.run(cmd, cwd=spec_dir, env=e, capture_output=True, text=True, timeout=timeout)
         except subprocess.TimeoutExpired as ex:
             if simulate is not None:
                 # simulation runs until killed when num is large; treat as normal end
